@@ -134,6 +134,11 @@ theorem water_entry_fields (pos : Nat) (e : Water.Entry) :
   refine ⟨rfl, rfl, fun h => ?_⟩
   simp [Water.layEntry, h]
 
+/-- THE WATER CHUNK'S SIZE is the header table plus exactly the bytes of what the entries hold (24 per layer, 8 per bitmap, the
+    vertex data, 16 per attribute block): a function of the content alone, so serialising the same content again cannot grow it -/
+theorem water_size_is_content (es : Water.Entry |> List) :
+    (Water.layout es).2 = 3072 + (es.map Water.entryBytes).sum := Water.layAll_end es 3072
+
 /-! non-vacuity: two layers (bitmap only; bitmap + 648 bytes of vertex data) with attributes, then an attribute-only entry -/
 example : Water.layout [⟨[⟨true, none⟩, ⟨true, some 648⟩], true⟩, ⟨[], true⟩] =
     ([⟨3072, 2, 3784, [(3120, 0), (3128, 3136)]⟩, ⟨0, 0, 3800, []⟩], 3816) := by decide
